@@ -39,6 +39,28 @@ func genTwinPlan(seed uint64, tier string) *Plan {
 			p.Ops = append(p.Ops, genSubscribeSnippet(g, c, li, g.intn(len(l.Backends)))...)
 		}
 	}
+	if g.chance(6) {
+		// a peer that uses hundreds of extension header names nobody has seen before (whatever the proxy remembers about
+		// header names, it remembers it for the life of the process: the worlds after this one run in the same process)
+		for i := range p.Ops {
+			if p.Ops[i].Kind != "msg" || p.Ops[i].Proto != "udp" {
+				continue
+			}
+			data := p.Ops[i].Data
+			end := bytes.Index(data, []byte("\r\n\r\n"))
+			if end < 0 || len(data) > 20000 || !bytes.Contains(data[:end], []byte("Content-Length: 0")) && !bytes.HasSuffix(data, []byte("\r\n\r\n")) {
+				continue
+			}
+			var sb bytes.Buffer
+			sb.Write(data[:end+2])
+			for k := 0; k < 700; k++ {
+				fmt.Fprintf(&sb, "X-%s-%d: %d\r\n", g.alnum(3, 8), k, k)
+			}
+			sb.Write(data[end+2:])
+			p.Ops[i].Data = sb.Bytes()
+			break
+		}
+	}
 	if g.chance(30) {
 		// short dialog timeout, answers that promise more under several header names, and a minute of silence before
 		// the last requests of each dialog: whatever lifetime the proxy derives from the answer, it derives it from
@@ -97,13 +119,15 @@ func genDialogSnippet(g *gen, c *Cfg, li int, bi int) []Op {
 	var ops []Op
 	ops = append(ops, mk("INVITE", 1, "<"+fromURI+">;tag="+fromTag, "<"+toURI+">", []string{uaVia}, uaIP, 5060, nil, "INVITE "+ruri+" SIP/2.0"))
 	var promise []sipwire.Header
-	switch g.intn(4) {
+	switch g.intn(5) {
 	case 0:
 		promise = []sipwire.Header{{Name: "Session-Expires", Value: "1800;refresher=uac"}, {Name: "Supported", Value: "timer"}}
 	case 1:
 		promise = []sipwire.Header{{Name: "Expires", Value: "1800"}}
 	case 2:
 		promise = []sipwire.Header{{Name: "Session-Expires", Value: "1800"}, {Name: "Expires", Value: "600"}}
+	case 3:
+		promise = []sipwire.Header{{Name: "Expires", Value: g.pick("0600", "007", "+600", "600 ")}} // a number, not in its shortest form
 	}
 	ops = append(ops, mk("INVITE", 1, "<"+fromURI+">;tag="+fromTag, "<"+toURI+">;tag="+toTag, []string{proxyVia, uaVia}, beIP, bePort, promise, "SIP/2.0 200 OK"))
 	methods := []string{"ACK", "INFO", "UPDATE", "BYE"}
@@ -175,10 +199,10 @@ func genSubscribeSnippet(g *gen, c *Cfg, li int, bi int) []Op {
 	ops = append(ops, mk("SUBSCRIBE sip:"+srvIP+":5060 SIP/2.0", "1 SUBSCRIBE", "<"+subscriber+">;tag="+fromTag, "<"+notifier+">", []string{beVia}, beIP, bePort,
 		[]sipwire.Header{{Name: "Route", Value: "<sip:" + srvIP + ":5060;lr>"}, {Name: "Event", Value: "presence"}}))
 	ops = append(ops, mk("SIP/2.0 200 OK", "1 SUBSCRIBE", "<"+subscriber+">;tag="+fromTag, "<"+notifier+">;tag="+toTag, []string{proxyVia, beVia}, srvIP, 5060,
-		[]sipwire.Header{{Name: "Expires", Value: "3600"}}))
+		[]sipwire.Header{{Name: "Expires", Value: g.pick("3600", "3600", "03600", "+3600")}}))
 	for k := 0; k < 1+g.intn(2); k++ {
 		ops = append(ops, mk("NOTIFY "+svc+" SIP/2.0", fmt.Sprintf("%d NOTIFY", 2+k), "<"+notifier+">;tag="+toTag, "<"+subscriber+">;tag="+fromTag, []string{srvVia()}, srvIP, 5060,
-			[]sipwire.Header{{Name: "Event", Value: "presence"}, {Name: "Subscription-State", Value: "active;expires=3000"}}))
+			[]sipwire.Header{{Name: "Event", Value: "presence"}, {Name: "Subscription-State", Value: g.pick("active;expires=3000", "active; expires=3000", "pending ;expires=20", "active;x=", "terminated; reason=timeout", "Active;Expires=3000")}}))
 	}
 	return ops
 }
